@@ -43,6 +43,15 @@ def make(prop, tier):
     for t, tl in [('cnl::elastic_scaled_integer<24, cnl::power<-10>>', 'esi24:-10'), ('cnl::scaled_integer<cnl::wide_integer<100>, cnl::power<-50>>', 'wide100:-50'),
                   ('cnl::static_number<30, -12>', 'static_number30:-12')]:
         regs.append('c13::Chars<%s, %d, false>::reg("scaled|%s")' % (t, prop, tl))
+    # static capacity over runs of digit counts (wide_integer 2..263 and 500..523; to_chars of an unsigned wide_integer does not
+    # compile on the pinned tree, see wrapper|wide1000u in uncompilable_allow.json; elastic_integer 1..96 of both signednesses: wider ones need a product of more than 127 digits inside to_chars)
+    step = 12
+    for kind, kn, spans in [(0, 'wide', [(2, 264), (500, 524)]), (2, 'elastic', [(1, 97)]), (3, 'elasticu', [(1, 97)])]:
+        for lo_, hi_ in spans:
+            for lo in range(lo_, hi_, step):
+                if quick and kind >= 2 and (lo // step) % 2:
+                    continue
+                regs.append('c13::CapSweep<%d, %d, %d, %d>::reg("%s|%d..%d")' % (prop, lo, step, kind, kn, lo, lo + step - 1))
     cases = 60000 if quick else 500000
     units = [Unit('C%d-gxx-%d' % (prop, i), 'gxx', 'props/C13.h', part, rc_cases=cases, enum_max=2 ** 14 if quick else 2 ** 22, chunk=5, tick_limit=100000)
              for i, part in enumerate(split(regs, 16))]
